@@ -410,6 +410,26 @@ def check(chk):
         ok = len(ini) >= 1 and src(ini[-1].ast.value).replace("dict()", "{}") == val
         chk.ob("TIER-1", "the tier table is rebuilt from scratch: %s starts at %s before the tiers are read" % (attr, val), ok, pt_.where(first.ast), construct=pt_.ident,
                text="tier rebuild start " + attr)
+    # what an amount earns: the best tier as often as it fits, then the next tier for the *remainder*, and so on down - every tier is visited
+    # (no early exit from the tier loop), each visit books the units it has accounted for, and the bonus accumulates
+    tls = [x for x in ast.walk(pt_.node) if isinstance(x, ast.For) and "reversed(pricing_tiers)" in src(x.iter)]
+    chk.need(len(tls) == 1, "TIER-1", "_calculate_pricing_tiers decomposes an amount over the tiers, best tier first", pt_)
+    tl_ = tls[0]
+    exits_ = [x for b in tl_.body for x in ast.walk(b) if isinstance(x, (ast.Break, ast.Return))]
+    chk.ob("TIER-1", "the decomposition visits every tier (the remainder above the best tier earns the lower tiers' bonuses)", not exits_,
+           pt_.where(exits_[0] if exits_ else tl_), construct=pt_.ident, text="tier decomposition exhaustive")
+    bon = [x for b in tl_.body for x in ast.walk(b) if isinstance(x, (ast.Assign, ast.AugAssign)) and src(x.targets[0] if isinstance(x, ast.Assign) else x.target) == "bonus"]
+    ok = bool(bon) and all(isinstance(x, ast.AugAssign) and isinstance(x.op, ast.Add) and src(x.value) == "tier_bonus" for x in bon)
+    chk.ob("TIER-1", "inside the decomposition the bonus only accumulates (+= the tier's bonus)", ok, pt_.where(bon[0] if bon else tl_), construct=pt_.ident,
+           text="tier bonus accumulates")
+    acc_ = [x for b in tl_.body for x in ast.walk(b) if isinstance(x, ast.AugAssign) and isinstance(x.op, ast.Add) and src(x.value) == "tier_credit_units"]
+    wh_ = [x for b in tl_.body for x in ast.walk(b) if isinstance(x, ast.While)]
+    from sa.cfg import canon_fact as _cf20
+    ok = len(acc_) == 1 and len(wh_) == 1 and any(y is acc_[0] for y in ast.walk(wh_[0])) and \
+        _cf20(src(wh_[0].test), True) == _cf20("units - %s >= tier_credit_units" % src(acc_[0].target), True) and \
+        all(any(y is x for y in ast.walk(wh_[0])) for x in bon)
+    chk.ob("TIER-1", "a tier is taken while the remainder (amount - units already accounted for) still covers it, and each take books the tier's units", ok,
+           pt_.where(wh_[0] if wh_ else tl_), construct=pt_.ident, text="tier taken per remainder")
     ad = [c for c in sw.calls() if call_attr(c) == "_add_credit_units"]
     ok = len(ad) == 1 and _arg0(ad[0], "credit_units").replace(" ", "") == "value/self.credit_unit" and \
         (kwarg(ad[0], "price_tiering") is None or src(kwarg(ad[0], "price_tiering")) == "True")
@@ -561,6 +581,8 @@ def battery():
         M("handler clean-up also wipes the expiry timers", CR, "        self.machine.events.remove_handler(self._credit_event_callback)\n", "        self.machine.events.remove_handler(self._credit_event_callback)\n        self.delay.clear()\n", "UNIT-7"),
         M("expiry resumed on game_ended only", CR, "        self.add_mode_event_handler('mode_game_stopped',\n                                    self._game_ended)", "        self.add_mode_event_handler('game_ended',\n                                    self._game_ended)", "UNIT-7"),
         M("new player charged according to the configured default", CR, "    def _player_added(self, **kwargs):\n        del kwargs\n        if self.machine.settings.get_setting_value('free_play'):", "    def _player_added(self, **kwargs):\n        del kwargs\n        if self.credits_config['free_play']:", "TABLE-10"),
+        M("only the best tier counts (remainder earns nothing)", CR, "            accounted_units = 0\n            bonus = 0\n            for tier_credit_units, tier_bonus in reversed(pricing_tiers):\n                while units - accounted_units >= tier_credit_units:\n                    accounted_units += tier_credit_units\n                    bonus += tier_bonus\n", "            bonus = 0\n            for tier_credit_units, tier_bonus in reversed(pricing_tiers):\n                if units >= tier_credit_units:\n                    bonus = (units // tier_credit_units) * tier_bonus\n                    break\n", "TIER-1"),
+        M("tier taken against the whole amount", CR, "                while units - accounted_units >= tier_credit_units:", "                while units >= tier_credit_units + accounted_units * 0 and accounted_units < units:", "TIER-1"),
         M("tier bonus added after the cap test", CR, "        # check for pricing tier\n        self.credit_units_for_pricing_tiers %= self.pricing_tiers_wrap_around\n\n        if price_tiering:\n            # add credits one by one to get all pricing tiers\n            for _ in range(credit_units):\n                self.credit_units_for_pricing_tiers += 1\n                bonus_credit_units = self.pricing_table[self.credit_units_for_pricing_tiers]\n                total_credit_units += bonus_credit_units\n                self.credit_units_for_pricing_tiers %= self.pricing_tiers_wrap_around\n\n", "", "BOUND-2", also=[(CR, "        if max_credit_units <= 0 or max_credit_units > previous_credit_units:", "        self.credit_units_for_pricing_tiers %= self.pricing_tiers_wrap_around\n        if price_tiering:\n            for _ in range(credit_units):\n                self.credit_units_for_pricing_tiers += 1\n                bonus_credit_units = self.pricing_table[self.credit_units_for_pricing_tiers]\n                total_credit_units += bonus_credit_units\n                self.credit_units_for_pricing_tiers %= self.pricing_tiers_wrap_around\n        if max_credit_units <= 0 or max_credit_units > previous_credit_units:")]),
         M("cap overwritten by total", CR, "            self.machine.variables.set_machine_var('credit_units', max_credit_units)\n            total_credit_units = max_credit_units\n", "            self.machine.variables.set_machine_var('credit_units', max_credit_units)\n", "BOUND-2"),
         M("cap test off by one game", CR, "        if max_credit_units and total_credit_units > max_credit_units:", "        if max_credit_units and total_credit_units > max_credit_units + self.credit_units_per_game:", "BOUND-2"),
